@@ -119,6 +119,7 @@ type boundsFn struct {
 	canonMemo   map[ssa.Value]ssa.Value
 	byKey       map[string][]ssa.Value
 	stores      map[string][]*ssa.Store
+	inFits      bool // re-entrancy guard of fitsAt
 	noInline    bool // summary mode: calls stay atoms (the caller translates them)
 	phiDone     map[*ssa.Phi]bool
 	passed      map[*ssa.BasicBlock][]passedCheck // requirements of the block's own panic-capable instructions
@@ -148,19 +149,20 @@ func instrBefore(a, b ssa.Instruction) bool {
 }
 
 type Bounds struct {
-	P          *Program
-	fns        map[*ssa.Function]*boundsFn
-	callers    map[*ssa.Function][]ssa.CallInstruction
-	addrTkn    map[*ssa.Function]bool
-	retRng     map[*ssa.Function]*ival
-	retProg    map[*ssa.Function]bool
-	wfMemo     map[*ssa.Function]bool
-	mwMemo     map[string]bool
-	roMemo     map[*ssa.Function]bool
-	neMemo     map[*ssa.Function]bool // noElemWrites
-	raw        map[*ssa.Function]*boundsFn
-	symRng     map[string]ival
-	outOfScope []string
+	P            *Program
+	fns          map[*ssa.Function]*boundsFn
+	callers      map[*ssa.Function][]ssa.CallInstruction
+	addrTkn      map[*ssa.Function]bool
+	retRng       map[*ssa.Function]*ival
+	retProg      map[*ssa.Function]bool
+	wfMemo       map[*ssa.Function]bool
+	mwMemo       map[string]bool
+	roMemo       map[*ssa.Function]bool
+	neMemo       map[*ssa.Function]bool  // noElemWrites
+	premiseFacts map[*ssa.Function][]aff // facts established from call sites (bounds_premise.go)
+	raw          map[*ssa.Function]*boundsFn
+	symRng       map[string]ival
+	outOfScope   []string
 }
 
 func newBounds(P *Program) *Bounds {
@@ -220,7 +222,18 @@ func (B *Bounds) of(fn *ssa.Function) *boundsFn {
 		rngMemo: map[interface{}]*ival{}, inProg: map[interface{}]bool{}, facts: map[*ssa.BasicBlock][]aff{},
 		canonMemo: map[ssa.Value]ssa.Value{}, valOverride: map[ssa.Value]*aff{}, lenOverride: map[ssa.Value]*aff{}}
 	B.fns[fn] = bf
+	bf.global = append(bf.global, B.premiseFacts[fn]...)
 	bf.indexKeys()
+	bf.computeFacts()
+	// second pass: values first met before the facts of their own block
+	// existed (through a loop phi) were memoised as opaque atoms; with every
+	// block's facts known they get their affine form, and the facts are
+	// rebuilt over those forms. The first-pass facts are sound (atoms only
+	// lose information) and are what justifies "does not wrap" in the second.
+	bf.affMemo = map[ssa.Value]*aff{}
+	bf.lenMemo = map[ssa.Value]*aff{}
+	bf.rngMemo = map[interface{}]*ival{}
+	bf.phiDone = nil
 	bf.computeFacts()
 	return bf
 }
@@ -308,7 +321,18 @@ func (bf *boundsFn) fitsAt(a aff, t types.Type, v ssa.Value) bool {
 	}
 	r := bf.rangeInBlock(a, ins.Block())
 	tr := typeRange(t)
-	return r.lo >= tr.lo && r.hi <= tr.hi
+	if r.lo >= tr.lo && r.hi <= tr.hi {
+		return true
+	}
+	// combinations of block, global and passed-check facts
+	if bf.inFits {
+		return false
+	}
+	bf.inFits = true
+	defer func() { bf.inFits = false }()
+	lo := r.lo >= tr.lo || bf.proveAt(a.add(affConst(tr.lo), -1), ins.Block(), ins)
+	hi := r.hi <= tr.hi || (tr.hi < posInfI && bf.proveAt(affConst(tr.hi).add(a, -1), ins.Block(), ins))
+	return lo && hi
 }
 
 func (bf *boundsFn) affOf1(v ssa.Value) aff {
